@@ -248,6 +248,27 @@ var profiles = []profile{
 				return []string{"ZRANGE", key, "0", "-1", "WITHSCORES"}
 			}
 		}},
+	// a work queue on ONE key that keeps running empty: the key is deleted and re-created all the time, so a command
+	// that acts on a value it looked up before it held the key's lock meets a stale object
+	{"queue", func(k []string) [][]string { return [][]string{{"RPUSH", k[0], "s1"}} },
+		func(r *rand.Rand, k []string, u string) []string {
+			switch r.Intn(20) {
+			case 0, 1, 2, 3, 4, 5, 6:
+				return []string{"RPOP", k[0]}
+			case 7, 8, 9:
+				return []string{"LPOP", k[0]}
+			case 10, 11, 12, 13, 14, 15:
+				return []string{"LPUSH", k[0], u}
+			case 16:
+				return []string{"RPUSH", k[0], u}
+			case 17:
+				return []string{"LMOVE", k[0], k[0], pick(r, "LEFT", "RIGHT"), pick(r, "LEFT", "RIGHT")}
+			case 18:
+				return []string{"LLEN", k[0]}
+			default:
+				return []string{"LRANGE", k[0], "0", "-1"}
+			}
+		}},
 	{"xstream", func(k []string) [][]string { return nil },
 		func(r *rand.Rand, k []string, u string) []string {
 			key := k[r.Intn(2)]
